@@ -150,8 +150,8 @@ B("C12", "sort-by-id", F_FLATB, "return sorted(portrefs, key=lambda p: (p.inst.n
 B("C12", "name-from-id", F_PORTREFS, "            segments=[f\"{portref.inst.name}_{portref.portname}\"],\n            avoid=module.namespace,\n        )\n        sig.name = signame", "            segments=[f\"{portref.inst.name}_{portref.portname}\", str(id(portref))],\n            avoid=module.namespace,\n        )\n        sig.name = signame", "C12.3")
 B("C12", "sort-key-not-total", F_FLATB, "return sorted(portrefs, key=lambda p: (p.inst.name or \"\", p.portname))", "return sorted(portrefs, key=lambda p: p.inst.name or \"\")", "C12.2")
 T("C12", "sort-key-port-first", F_FLATB, "return sorted(portrefs, key=lambda p: (p.inst.name or \"\", p.portname))", "return sorted(portrefs, key=lambda ref: (ref.portname, ref.inst.name or \"\"))")
-B("C12", "parallel-ports-from-set", F_GENERATORS, "    par_ports = [port for port in m.ports.values() if port not in series_conns]", "    par_ports = set(m.ports.values()) - set(series_conns)", "C12.4")
-T("C12", "parallel-ports-sorted-set", F_GENERATORS, "    par_ports = [port for port in m.ports.values() if port not in series_conns]", "    par_ports = sorted(set(m.ports.values()) - set(series_conns), key=lambda q: q.name)")
+B("C12", "parallel-ports-from-set", F_GENERATORS, "    par_ports = [port for port in io(m).values() if port not in series_conns]", "    par_ports = set(io(m).values()) - set(series_conns)", "C12.4")
+T("C12", "parallel-ports-sorted-set", F_GENERATORS, "    par_ports = [port for port in io(m).values() if port not in series_conns]", "    par_ports = sorted(set(io(m).values()) - set(series_conns), key=lambda q: q.name)")
 B("C08", "circular-check-on-stack", F_GENERATOR, "        if call in the_cache.pending:\n", "        if call in the_cache.stack[:-1]:\n", "C08.1", accept_error=True)
 T("C12", "sorted-inline", F_FLATB, "            for connected_port in sorted_portrefs(bref._connected_ports):", "            for connected_port in sorted(bref._connected_ports, key=lambda p: (p.inst.name or \"\", p.portname)):")
 
@@ -197,7 +197,15 @@ B("C17", "tran-into-ac", F_SIMPROTO, "            return vsp.Analysis(tran=self.
 B("C17", "tb-check-removed", F_SIMPROTO, "        if not data.is_tb(self.sim.tb):\n            raise RuntimeError(f\"Invalid Testbench {self.sim.tb} for Simulation\")\n", "", "C17.6")
 
 # ------------------------------------------------------------------ C18
-B("C18", "no-eviction-module", F_MODULE, "            module.instbundles,\n            module.bundles,\n        ):", "            module.instbundles,\n        ):", "C18.1")
+B("C18", "no-eviction-module", F_MODULE, "            module.instbundles,\n            module.bundles,\n        ):\n            if ctr.get(val.name, None) is old:", "            module.instbundles,\n        ):\n            if ctr.get(val.name, None) is old:", "C18.1")
+B("C18", "moved-object-keeps-old-view", F_MODULE, "            module.instbundles,\n            module.bundles,\n        ):\n            if ctr.get(key, None) is val:", "            module.instbundles,\n        ):\n            if ctr.get(key, None) is val:", "C18.1")
+B("C18", "moved-object-keeps-old-key", F_MODULE, "        module.namespace.pop(key)\n", "", "C18.1")
+B("C16", "no-port-name-guard", F_FLATTEN, "        if \":\" in port.name:", "        if False:", "C16.3")
+B("C06", "name-recorded-late", F_EXPORT, "        mapping = ModuleMapping(module, pmod)\n        self.modules_by_name[pmod.name] = mapping\n", "        mapping = ModuleMapping(module, pmod)\n", "C06", accept_error=True)
+B("C12", "portref-tie-by-instance-only", F_PORTREFS, "ordered = sorted(group, key=lambda p: (p.inst.name, p.portname))", "ordered = sorted(group, key=lambda p: p.inst.name)", "C12.2")
+B("C12", "sets-named-in-hash-order", F_PARAMS, "        return sorted(json.dumps(e, default=hdl21_naming_encoder) for e in obj)", "        return [json.dumps(e, default=hdl21_naming_encoder) for e in obj]", "C12.3")
+B("C19", "series-signal-ports-only", F_GENERATORS, "    for p in io(params.unit).values():", "    for p in params.unit.ports.values():", "C19.1")
+B("C19", "bundle-deepcopy-removed", F_BUNDLE, "    def __deepcopy__(self, _memo) -> \"BundleInstance\":", "    def _deepcopy_disabled(self, _memo) -> \"BundleInstance\":", "C19.4")
 B("C18", "unban-bundle-ports", F_MODULE, "    \"get\",\n    \"bundle_ports\",\n]", "    \"get\",\n]", "C18.2")
 B("C18", "bundle-delattr-removed", F_BUNDLE, "    def __delattr__(self, __name: str) -> None:\n        \"\"\"Disable attribute deletion, as for `Module`s.\"\"\"", "    def _delattr_disabled(self, __name: str) -> None:\n        \"\"\"Disable attribute deletion, as for `Module`s.\"\"\"", "C18.3")
 B("C18", "port-view-inverted", F_MODULE, "        if val.vis == Visibility.PORT:\n            type_ctr = module.ports\n        else:\n            type_ctr = module.signals", "        if val.vis == Visibility.PORT:\n            type_ctr = module.signals\n        else:\n            type_ctr = module.ports", "C18.5")
@@ -237,8 +245,7 @@ TR("C16", "flatten-locals-renamed", F_FLATTEN, r"\bnew_conns\b", "child_map", 3)
 TR("C17", "simproto-locals-renamed", F_SIMPROTO, r"\banalysis_name\b(?!=)", "aname", 8)
 TR("C02", "orphanage-locals-renamed", F_ORPH, r"\binstlike\b", "insts", 2)
 TR("C06", "exporter-locals-renamed", F_EXPORT, r"\bpsig\b", "proto_sig", 4)
-T("C06", "export-module-locals-renamed", F_EXPORT, "        mapping = ModuleMapping(module, pmod)\n        self.modules_by_id[id(module)] = mapping\n        self.modules_by_name[pmod.name] = mapping",
-  "        entry = ModuleMapping(module, pmod)\n        self.modules_by_id[id(module)] = entry\n        self.modules_by_name[pmod.name] = entry")
+TR("C06", "export-module-locals-renamed", F_EXPORT, r"\bmapping\b", "entry", 3)
 T("C16", "walk-locals-renamed", F_FLATTEN, "            new_sig_name = \":\".join([p.name for p in parents] + [key])", "            new_sig_name = \":\".join([q.name for q in parents] + [key])")
 T("C02", "check-instance-locals-renamed", F_CONNT, "        bad_conns = {\n            name: s for name, s in statuses.items() if not isinstance(s, Valid)\n        }\n        if bad_conns:\n            msg = f\"Invalid connections `{bad_conns}` on",
   "        invalid = {\n            name: s for name, s in statuses.items() if not isinstance(s, Valid)\n        }\n        if invalid:\n            msg = f\"Invalid connections `{invalid}` on")
